@@ -12,7 +12,8 @@ HYPOTHESES = ['HB1 (structure C05.HB1): additivity of the Miller-loop pairing in
 NOT_YET_PROVED = ['bilinearity itself (HB1). Proved around it: pairing values are r-th roots of unity (C05_Order, four implementations), e(G2,G1) != 1 of order exactly r by kernel evaluation (PropsHeavy/C05_Nondeg), optimized = reference pairings (C12_Miller, C12_MillerBn)']
 ASSUMPTIONS = []
 nontrivial = nontrivial_default
-EXTRA_MODULES = {"Props.TiePairing": "PyEcc.Tie.", "Props.TieMiller": "PyEcc.Tie.", "Props.TieHashCurve": "PyEcc.Tie."}
+EXTRA_MODULES = {"Props.TiePairing": "PyEcc.Tie.", "Props.TieMiller": "PyEcc.Tie.", "Props.TieHashCurve": "PyEcc.Tie.", "Props.TieFieldsFq": "PyEcc.Tie.", "Props.TieFieldsFqp": "PyEcc.Tie.", "Props.TieFieldsMul": "PyEcc.Tie.", "Props.TieFieldsPoly": "PyEcc.Tie.", "Props.TieFieldsInv": "PyEcc.Tie."}
+
 CHUNK = 1
 
 
